@@ -147,6 +147,24 @@ def populate (rows : List (List Rat)) (cond : List (List Nat × List Rat)) :
           let r := populate rows cond fuel outcome oc.2 acc.2
           (acc.1 ++ r.1, r.2)) ([], draws.drop 1)
 
+/-- the probability vectors handed to the sampler by `_populate_samples`, call by call (same control flow and the same consumption of
+draws as `populate`): the table of the state if there is one, otherwise the rows of all remaining bases -/
+def populateP (rows : List (List Rat)) (cond : List (List Nat × List Rat)) :
+    Nat → List Nat → Nat → Draws → List (List Rat) × Draws
+  | 0, _, _, draws => ([], draws)
+  | fuel + 1, state, _numDesired, draws =>
+    match cond.find? (fun e => e.1 == state) with
+    | none => (rows.drop state.length, draws.drop (rows.length - state.length))
+    | some e =>
+      let cur := draws.headD []
+      let cs := counter cur
+      cs.foldl (fun (acc : List (List Rat) × Draws) oc =>
+        let outcome := state ++ [oc.1]
+        if outcome.length == rows.length then acc
+        else
+          let r := populateP rows cond fuel outcome oc.2 acc.2
+          (acc.1 ++ r.1, r.2)) ([e.2], draws.drop 1)
+
 /-- the single-leftover shortcut: follow the unique non-zero entry at every level, if there is one -/
 def singleLeftover (rows : List (List Rat)) (cond : List (List Nat × List Rat)) : Nat → List Nat → Option (List Nat)
   | 0, state => if state.length == rows.length then some state else none
@@ -191,5 +209,30 @@ def generateWeights (rows : List (List Rat)) (N : Option Rat) (atol : Rat) (draw
     | none =>
       let samples := (populate rows conds (rows.length + 1) [] needed.toNat draws).1
       .ok (exact ++ samples.map fun sc => { key := sc.1, w := (sc.2 : Rat) * single, ty := .sampled })
+
+/-- the sampler calls of `_generate_qpd_weights` (empty when nothing is sampled); same branches as `generateWeights` -/
+def samplerCalls (rows : List (List Rat)) (N : Option Rat) (atol : Rat) (draws : Draws) : List (List Rat) :=
+  match N with
+  | none => []
+  | some n =>
+    if !(1 ≤ n) then [] else
+    let thr := 1 / n
+    let smallest := (rows.map fun r => (minNonzero atol r).getD 0).prod
+    if thr ≤ smallest then [] else
+    let largest := (rows.map maxOf).prod
+    let ys := if thr ≤ largest then genUnsorted rows thr atol else []
+    let conds : List (List Nat × List Rat) := ys.filterMap fun
+      | Y.full _ _ => none
+      | Y.cond s arr => some (s, arr)
+    let wts0 : Rat := match conds.find? (fun e => e.1 == []) with
+      | some e => e.2.sum
+      | none => 1
+    if !conds.isEmpty && wts0 == 0 then [] else
+    let conds := conds.map fun e => if e.1 == [] then (e.1, e.2.map (· / wts0)) else e
+    let needed := ceilRat (wts0 * n)
+    if needed < 1 then [] else
+    match (if conds.isEmpty then none else singleLeftover rows conds rows.length []) with
+    | some _ => []
+    | none => (populateP rows conds (rows.length + 1) [] needed.toNat draws).1
 
 end CKT
